@@ -104,6 +104,7 @@ macro_rules! c07_cauchy {
     };
 }
 //@ id: c07_cauchy_f64
+//@ besteffort: yes
 //@ prop: C07
 //@ tier: thorough
 //@ cap: 3600
